@@ -1,5 +1,5 @@
 use core::str;
-use std::{fmt, str::CharIndices};
+use std::{cmp::Ordering, fmt, str::CharIndices};
 
 use crate::{
     constants::MONTHS_OFFSETS,
@@ -638,7 +638,7 @@ impl<'a> Parser<'a> {
                                 duration.hours = Self::checked_sum(duration.hours, value)?;
 
                                 if let Some(fraction) = op_fraction {
-                                    Self::add_fraction(&mut duration, fraction, 3_600.0)?;
+                                    Self::add_fraction(&mut duration, &fraction, 3_600)?;
                                 }
                             }
                             'M' => {
@@ -651,14 +651,14 @@ impl<'a> Parser<'a> {
                                 duration.minutes = Self::checked_sum(duration.minutes, value)?;
 
                                 if let Some(fraction) = op_fraction {
-                                    Self::add_fraction(&mut duration, fraction, 60.0)?;
+                                    Self::add_fraction(&mut duration, &fraction, 60)?;
                                 }
                             }
                             'S' => {
                                 duration.seconds = Self::checked_sum(duration.seconds, value)?;
 
                                 if let Some(fraction) = op_fraction {
-                                    Self::add_fraction(&mut duration, fraction, 1.0)?;
+                                    Self::add_fraction(&mut duration, &fraction, 1)?;
                                 }
                             }
                             _ => {
@@ -711,7 +711,7 @@ impl<'a> Parser<'a> {
                                 duration.weeks = value;
 
                                 if let Some(fraction) = op_fraction {
-                                    Self::add_fraction(&mut duration, fraction, 604_800.0)?;
+                                    Self::add_fraction(&mut duration, &fraction, 604_800)?;
                                 }
                             }
                             'D' => {
@@ -724,7 +724,7 @@ impl<'a> Parser<'a> {
                                 duration.days = Self::checked_sum(duration.days, value)?;
 
                                 if let Some(fraction) = op_fraction {
-                                    Self::add_fraction(&mut duration, fraction, 86_400.0)?;
+                                    Self::add_fraction(&mut duration, &fraction, 86_400)?;
                                 }
                             }
                             _ => {
@@ -754,14 +754,45 @@ impl<'a> Parser<'a> {
         Ok(())
     }
 
-    /// Adds `fraction` (in [0, 1)) of a unit lasting `unit_seconds`,
-    /// rounded to the microsecond.
+    /// Adds the decimal fraction "0.<digits>" of a unit lasting `unit_seconds`,
+    /// rounded to the nearest microsecond (ties to even) in exact arithmetic.
     fn add_fraction(
         duration: &mut ParsedDuration,
-        fraction: f64,
-        unit_seconds: f64,
+        digits: &[u8],
+        unit_seconds: u64,
     ) -> Result<(), ParseError> {
-        let micros = (fraction * unit_seconds * 1_000_000.0).round_ties_even() as u64;
+        let unit_micros = unit_seconds * 1_000_000;
+
+        // The leading digits settle the whole microseconds: the rest of them
+        // is worth less than 1e-12 microseconds
+        let mut numerator = 0_u128;
+        let mut denominator = 1_u128;
+        for digit in digits.iter().take(24) {
+            numerator = numerator * 10 + u128::from(*digit);
+            denominator *= 10;
+        }
+        let mut micros = (numerator * u128::from(unit_micros) / denominator) as u64;
+
+        // Long division of the half-way point (2 * micros + 1) / (2 * unit_micros)
+        // against every digit decides on which side of it the fraction lies
+        let mut remainder = 2 * micros + 1;
+        let mut ordering = Ordering::Equal;
+        for digit in digits {
+            remainder *= 10;
+            ordering = u64::from(*digit).cmp(&(remainder / (2 * unit_micros)));
+            remainder %= 2 * unit_micros;
+            if ordering != Ordering::Equal {
+                break;
+            }
+        }
+        if ordering == Ordering::Equal && remainder != 0 {
+            ordering = Ordering::Less;
+        }
+
+        if ordering == Ordering::Greater || (ordering == Ordering::Equal && micros % 2 == 1) {
+            micros += 1;
+        }
+
         let seconds = micros / 1_000_000;
 
         duration.days = Self::checked_sum(duration.days, seconds / 86_400)?;
@@ -780,29 +811,25 @@ impl<'a> Parser<'a> {
         })
     }
 
-    fn parse_duration_number_frac(&mut self) -> Result<(u64, Option<f64>), ParseError> {
+    /// Parses a duration number and the digits of its optional decimal fraction.
+    fn parse_duration_number_frac(&mut self) -> Result<(u64, Option<Vec<u8>>), ParseError> {
         let value = self.parse_duration_number()?;
 
         if !matches!(self.current, '.' | ',') {
             return Ok((value, None));
         }
 
-        let mut decimal = 0_f64;
-        let mut denominator = 1_f64;
-        let mut digits = 0;
+        let mut digits: Vec<u8> = Vec::new();
 
         while let Some(digit) = self.inc().and_then(|ch| ch.to_digit(10)) {
-            decimal *= 10.0;
-            decimal += f64::from(digit);
-            denominator *= 10.0;
-            digits += 1;
+            digits.push(digit as u8);
         }
 
-        if digits == 0 {
+        if digits.is_empty() {
             return Err(self.parse_error("Invalid duration fraction".to_string()));
         }
 
-        Ok((value, Some(decimal / denominator)))
+        Ok((value, Some(digits)))
     }
 
     fn parse_duration_number(&mut self) -> Result<u64, ParseError> {
